@@ -15,6 +15,12 @@ NA = {
 }
 
 CHECKS = {
+    "C02": dict(
+        text="Seeded search over schedules: (a) IntegralForm (Cartesian, plane-strain, axisymmetric incl. hoop terms, mixed block modes 1/2/3, absent blocks, uniform-grid broadcast, out= reuse with dirty buffers, values= pass-through) with parallel=True under a simulated einsumt pool (size 1..33 as a knob, seeded job order, failing job); (b) Form(...) weak forms (value/gradient/hessian spaces, linear/bilinear/mixed, sym flag) with parallel=True under a simulated thread scheduler (real threads parked and released one at a time at sys.monitoring LINE/STORE_SUBSCR yield points; fifo, lifo, round-robin and seeded random schedules; joins only wait for the joined thread) and a failing worker thread. Every result is compared with an independent naive assembler, with parallel=False and with the equivalent array form; a failing worker must surface as an exception. Sampling of schedules, not proof; races inside NumPy C code are not explored.",
+        note="Trusted: numpy einsum, the generalised-basis reference assembler in fesim/refmodel.py (region.h/dhdX/dV arrays are inputs to both sides), scipy.sparse. Real: all of felupe.assembly, einsumt chunking. Simulated: thread scheduling, einsumt pool.",
+        technique="deterministic simulation: seeded thread-interleaving and pool-schedule search with worker fault injection, reference-model equality under every schedule",
+        ref="DESIGN.md section 7 (C02)",
+    ),
     "C07": dict(
         text="Seeded search over simulated Newton/Job histories: generated problems (mesh family, distortion, field kind, material, items, boundary dictionary incl. dual-field boundaries, ramps, tol/maxiter, x0 continuation) run under a fault layer on the linear-solver seam (raise, NaN/Inf, zero/flipped/scaled/stalled update, inexact solve), on the material (raise/NaN), on the callback, and with skewed clocks. Every returned result is re-checked on a cold fork (independent residual, prescribed values from an independent boundary model), every linear solve against the independently sliced reduced system, every failure against no-commit and raise-not-return. Sampling, not proof.",
         note="Trusted: numpy/scipy (SuperLU) arithmetic, Boundary.dof index tables (C08 territory), the fork builder in fesim/world.py. Real code: all of felupe, SuperLU. Simulated: solver fault layer, clock, callbacks, material fault wrapper.",
